@@ -602,7 +602,11 @@ def run_e2(spec, monitor_factory, path):
         except StopIteration:
             raise HarnessError('replay: run wants more steps than the recorded path has')
         state['n'] += 1
-        w.apply(label)
+        try:
+            w.apply(label)
+        except BaseException as e:
+            e.mc_steps = state['n']
+            raise
 
     saved = (Asset._id_counter, System._instance)
     Asset._id_counter = w.id_counter
